@@ -13,7 +13,7 @@ Inductive ekind := EBuffer | EFleet.
 
 Inductive crash :=
 | CAssert (where_ : nat) | CIndex (where_ : nat) | CValue (where_ : nat) | CRuntime (where_ : nat)
-| CType (where_ : nat) | CFuel | CDoubleSucceed (where_ : nat).
+| CType (where_ : nat) | CAttr (where_ : nat) | CFuel | CDoubleSucceed (where_ : nat).
 
 (* trace log entries: what an observer at the store API boundary sees *)
 Inductive tev :=
@@ -22,6 +22,7 @@ Inductive tev :=
 | LGet (t : Z) (e : nat) (i : nat) (n : nat)
 | LDiscard (t : Z) (n : nat) (i : nat)
 | LRecv (t : Z) (n : nat) (i : nat)
+| LPack (t : Z) (n : nat) (pallet : nat) (i : nat)   (* Pallet.add_item in a combiner *)
 | LSel (n : nat) (out : bool) (idx : nat)      (* a selection recorded by a node *)
 | LDraw (n : nat) (what : nat) (v : Z).        (* a value drawn from a delay / selector stream *)
 
@@ -47,12 +48,13 @@ Record node := {
   ngen : nat; ndisc : nat; nprocd : nat; nrecv : nat; ncycle : Z;
   nsrep : Z * Z; nthreads : list (nat * bool); nres : res; nnumw : nat; nocclast : Z; nocchist : list Z;
   nsumproc : Z; nsumblk : Z;
-  nrecipe : list nat                              (* Combiner: target_quantity_of_each_item *)
+  nrecipe : list nat;                             (* Combiner: target_quantity_of_each_item *)
+  npallet : bool                                  (* Source: flow_item_type = 'pallet' *)
 }.
 #[global] Instance eta_node : Settable _ :=
   settable! Build_node <nk; nins; nouts; nsetup; nblocking; nwcap; ninsel; noutsel; ndelays; ndptr; ninptr; noutptr;
                         nstate; nlast; ntstate; ngen; ndisc; nprocd; nrecv; ncycle; nsrep; nthreads; nres; nnumw;
-                        nocclast; nocchist; nsumproc; nsumblk; nrecipe>.
+                        nocclast; nocchist; nsumproc; nsumblk; nrecipe; npallet>.
 
 Inductive pkind :=
 | KSourceB | KMachineB | KWorker | KSinkB | KPush | KBufTimer | KFleetAct | KFleetMove
@@ -81,7 +83,7 @@ Definition node0 : node :=
   {| nk := NSink; nins := []; nouts := []; nsetup := 0; nblocking := true; nwcap := 1; ninsel := PFirst; noutsel := PFirst;
      ndelays := []; ndptr := 0; ninptr := 0; noutptr := 0; nstate := 0; nlast := None; ntstate := [];
      ngen := 0; ndisc := 0; nprocd := 0; nrecv := 0; ncycle := 0; nsrep := (-1, -1); nthreads := []; nres := res_init 1;
-     nnumw := 0; nocclast := 0; nocchist := []; nsumproc := 0; nsumblk := 0; nrecipe := [] |}.
+     nnumw := 0; nocclast := 0; nocchist := []; nsumproc := 0; nsumblk := 0; nrecipe := []; npallet := false |}.
 Definition proc0 : proc :=
   {| pkd := KSinkB; ppc := 0; pown := 0; pdone := 0; pit := 0; ptk := 0; pix := 0; pdl := 0; pt0 := 0; pt1 := 0;
      ptks := []; plst := []; paux := 0; palive := false |}.
